@@ -257,3 +257,5 @@ def run(tier, seed, replay):
         if bad:
             rc = 1
     return rc
+
+TECHNIQUE += ' + translator tie: create_engine_with_case translated statement by statement from src/engine/factory.rs and proved equal to decodeTerm (Props/TermOpsTables.lean)'
